@@ -119,6 +119,9 @@ struct Drip<'a> {
     k: usize,
     rng: Option<Rng>,
     cur: usize,
+    /// every n-th call of fill_buf reports Interrupted first (0 = never)
+    intr: usize,
+    calls: usize,
 }
 impl Read for Drip<'_> {
     fn read(&mut self, buf: &mut [u8]) -> io::Result<usize> {
@@ -129,6 +132,10 @@ impl Read for Drip<'_> {
 }
 impl BufRead for Drip<'_> {
     fn fill_buf(&mut self) -> io::Result<&[u8]> {
+        self.calls += 1;
+        if self.intr > 0 && self.calls % self.intr == 0 {
+            return Err(io::Error::from(io::ErrorKind::Interrupted));
+        }
         if self.cur == 0 {
             self.cur = match &mut self.rng { Some(r) => 1 + r.below(self.k as u64) as usize, None => self.k };
         }
@@ -237,7 +244,7 @@ pub fn run(args: &Args) {
         // reader side: chunked sources
         let whole = Package::parse(&mut &canon[..]).unwrap();
         for (k, random) in [(1usize, false), (2, false), (3, false), (7, false), (16, false), (13, true), (5, true)] {
-            let mut src = Drip { data: &canon, pos: 0, k, rng: if random { Some(Rng::new(args.seed() + k as u64)) } else { None }, cur: 0 };
+            let mut src = Drip { data: &canon, pos: 0, k, rng: if random { Some(Rng::new(args.seed() + k as u64)) } else { None }, cur: 0, intr: [0usize, 2, 0, 3, 5, 0, 2][k % 7], calls: 0 };
             let r = guarded(|| Package::parse(&mut src));
             let (res, same) = match r {
                 Ok(Ok(p)) => ("ok", p.metadata == whole.metadata && p.content == whole.content),
@@ -245,7 +252,7 @@ pub fn run(args: &Args) {
                 Err(_) => ("panic", false),
             };
             t.emit(json!({"event":"ParseChunked","pkg":name,"chunk":k,"random":random,"result":res,"same_as_whole":same}));
-            let mut src = Drip { data: &canon_meta, pos: 0, k, rng: None, cur: 0 };
+            let mut src = Drip { data: &canon_meta, pos: 0, k, rng: None, cur: 0, intr: [0usize, 3, 0, 2][k % 4], calls: 0 };
             let r = guarded(|| PackageMetadata::parse(&mut src));
             let (res, same) = match r { Ok(Ok(m)) => ("ok", m == whole.metadata), Ok(Err(_)) => ("err", false), Err(_) => ("panic", false) };
             t.emit(json!({"event":"ParseChunked","pkg":name,"chunk":k,"what":"metadata","result":res,"same_as_whole":same}));
